@@ -85,4 +85,90 @@ let predict (c : string) (obs : string) : string * string * bool =
       (pred, verdict ok why, ch <> [] || lim > 0 || pas > 0)
   | _ -> ("unknown-case", "BAD:unknown-case", false)
 
-let () = run_cases predict
+(* ---- content cells: cpair <kind> <limit> <passes> <cfg> <items> <chosen> <cancel> <eof> ---- *)
+
+let split_on c s = if s = "-" || s = "" then [] else String.split_on_char c s
+
+let kv_of (s : string) : n list * n list =
+  match String.index_opt s '.' with
+  | Some i -> (bytes_of_hex (String.sub s 0 i), bytes_of_hex (String.sub s (i + 1) (String.length s - i - 1)))
+  | None -> (bytes_of_hex s, [])
+
+let tail1 s = String.sub s 1 (String.length s - 1)
+
+let citems_of (s : string) : citem list =
+  List.filter_map (fun f ->
+      if f = "" then None
+      else if f.[0] = 'h' then (let (k, v) = kv_of (tail1 f) in Some (CHdr (k, v)))
+      else Some (CEnt (bytes_of_hex (tail1 f)))) (split_on ',' s)
+
+let render_view (v : view) : string =
+  let hs = if v.v_hdrs = [] then "-"
+    else String.concat ";" (List.map (fun (k, x) -> hex_of_bytes k ^ "=" ^ hex_of_bytes x) v.v_hdrs) in
+  Printf.sprintf "%d/%s/%s/%s" (int_of_nat v.v_pos) (hex_of_bytes v.v_tag) (hex_of_bytes v.v_host) hs
+
+let big_nat : nat = let rec mk acc i = if i <= 0 then acc else mk (S acc) (i - 1) in mk O 100000
+let view_of_obs (t : string) : view =
+  let bad = { v_pos = big_nat; v_tag = []; v_host = []; v_hdrs = [] } in
+  match String.split_on_char '/' t with
+  | [p; tag; host; hs] ->
+      (match int_of_string_opt p with
+       | None -> bad   (* x<idx>: method or body differ from the file *)
+       | Some i ->
+           let hdrs = List.map (fun kv ->
+               match String.index_opt kv '=' with
+               | Some j -> (bytes_of_hex (String.sub kv 0 j), bytes_of_hex (String.sub kv (j + 1) (String.length kv - j - 1)))
+               | None -> (bytes_of_hex kv, [])) (split_on ';' hs) in
+           { v_pos = nat_of_int i; v_tag = bytes_of_hex tag; v_host = bytes_of_hex host; v_hdrs = hdrs })
+  | _ -> bad
+
+let predict_c (c : string) (obs : string) : string * string * bool =
+  match split_blank c with
+  | "cpair" :: kind :: lim :: pas :: cfg :: items :: chosen :: cancel :: _eof ->
+      let lim = int_of_string lim and pas = int_of_string pas in
+      let k = dkind_of kind in
+      let uri_like = (kind = "uri" || kind = "uripost") in
+      let cfgh = List.map kv_of (split_on ',' cfg) in
+      let items = citems_of items in
+      let chb = List.map (fun t -> bytes_of_hex (tail1 t)) (split_on ',' chosen) in
+      let cs = file_entries cfgh items [] O in
+      let n = List.length cs in
+      let src_len = List.length (chosen_content chb cs) in
+      let (sc, ss, sa, sr, pc, ps, pa, pr) =
+        (match split_blank obs with
+         | ["S"; a; b; c; d; "P"; e; f; g; h] -> (int_of_string a, b, c, d, int_of_string e, f, g, h)
+         | _ -> (0, "-", "?", "?", 0, "-", "?", "?")) in
+      let cancel_m = if cancel = "-" then None else Some (int_of_string cancel) in
+      let bnd = (match bound (nat_of_int lim) (nat_of_int pas) (nat_of_int src_len) with Some b -> Some (int_of_nat b) | None -> None) in
+      let fuel cnt = nat_of_int (60 * ((max cnt (match bnd with Some b -> b | None -> 0)) + 1) * (n + 2)) in
+      let render_c ((l, o), cl) =
+        let l = List.map (fun c -> render_view (view_of uri_like c)) l in
+        Printf.sprintf "%d %s %s %s" (List.length l) (if l = [] then "-" else String.concat "," l)
+          (if cl then "closed" else "blocked") (out_class o) in
+      let run preload cancel cnt = render_c (deliver_c k preload (nat_of_int lim) (nat_of_int pas) cfgh items chb cancel (fuel cnt)) in
+      let one preload ocount oline =
+        (match cancel_m with
+         | None -> run preload None ocount
+         | Some _ ->
+             let p_c = run preload (Some (nat_of_int ocount)) ocount in
+             if bnd = None && src_len > 0 then p_c
+             else begin
+               let p_none = run preload None ocount in
+               if p_none = oline then p_none else p_c
+             end) in
+      let sline = Printf.sprintf "%d %s %s %s" sc ss sa sr and pline = Printf.sprintf "%d %s %s %s" pc ps pa pr in
+      let pred = "S " ^ one false sc sline ^ " P " ^ one true pc pline in
+      let views s = List.map view_of_obs (split_on ',' s) in
+      let ok = spec14c_b uri_like (nat_of_int lim) (nat_of_int pas) cfgh items chb
+          (match cancel_m with None -> None | Some m -> Some (nat_of_int m))
+          (views ss) (views ps) (sa = "closed") (pa = "closed") (runclass_of sr) (runclass_of pr) in
+      let why =
+        if sline <> pline then "preload on and off differ"
+        else if src_len = 0 then "nothing matches: want nothing delivered, sink closed, Run returns"
+        else "want the " ^ string_of_int src_len ^ " entries whose whole tag is listed, each with its tag and the headers in force at its own line, replayed cyclically"
+             ^ (match bnd with Some b -> Printf.sprintf ", %d delivered, closed, run ok" b | None -> " until cancelled") in
+      (pred, verdict ok why, true)
+  | _ -> ("unknown-case", "BAD:unknown-case", false)
+
+let () = run_cases (fun c obs ->
+    if String.length c >= 5 && String.sub c 0 5 = "cpair" then predict_c c obs else predict c obs)
